@@ -197,6 +197,12 @@ func concurrent(e *env, prop string, mode int) {
 			if i%7 == 0 {
 				for t := range p.Threads {
 					p.Threads[t].Orca = "l1only"
+					// the GetE extension exists for one-tier deployments only: turn gets into getes there
+					for j := range p.Threads[t].Reqs {
+						if q := &p.Threads[t].Reqs[j]; q.Kind == "get" && (i%14 == 0 || r.Bool()) {
+							q.Kind = "gete"
+						}
+					}
 				}
 			}
 			if mode == 12 && i%3 == 0 {
@@ -208,6 +214,9 @@ func concurrent(e *env, prop string, mode int) {
 			if mode == 12 && r.Chance(70) {
 				// a panic at some handler call of thread 0; another thread works on the same keys afterwards
 				p.Threads[0].FailAt = r.Intn(4)
+				// a last command that needs no lock and no backend: it is parsed only if the
+				// connection survived the failure
+				p.Threads[0].Reqs = append(p.Threads[0].Reqs, stack.Req{Kind: "noop", Opaque: 4242})
 			}
 			progs = append(progs, p)
 		}
@@ -256,6 +265,9 @@ func concurrent(e *env, prop string, mode int) {
 			// Go-side oracles of C12
 			if rg.MultiHeld != "" {
 				w.Fail(rig.GoFailure{Kind: "counterexample", What: "a connection held more than one key lock at a time: " + rg.MultiHeld, Input: pp})
+			}
+			if rg.SplitKey != "" {
+				w.Fail(rig.GoFailure{Kind: "counterexample", What: "backend requests on one key were made under different key locks: " + rg.SplitKey, Input: pp})
 			}
 			if rg.LocksHeld() != 0 {
 				w.Fail(rig.GoFailure{Kind: "counterexample", What: "a key lock is still held after all connections finished", Input: pp, Detail: fmt.Sprint(rg.LocksHeld())})
